@@ -10,6 +10,7 @@ Section exec.
 Context {V L O E : Type}.
 Variable beh : L -> pend V L O E.
 Variable oracle : nat -> O.        (* answer of the k-th external call, k = length of the log so far *)
+Variable skip_default : L -> bool.  (* scheduling policy: states in which a [default] branch is not taken *)
 
 Notation net := (net V L E).
 
@@ -37,7 +38,7 @@ Fixpoint find_partner (n : net) (c : nat) (i : nat) (j : nat) (ps : list L) : op
       end
   end.
 
-Definition try_alt (n : net) (i : nat) (g : gd V) (k : resp V -> L) : option net :=
+Definition try_alt (n : net) (i : nat) (l : L) (g : gd V) (k : resp V -> L) : option net :=
   match g with
   | GRecv c =>
       match chans n !! c with
@@ -63,13 +64,13 @@ Definition try_alt (n : net) (i : nat) (g : gd V) (k : resp V -> L) : option net
       | None => None
       end
   | GDone => if cancelled n then Some (set_proc n i (k RCancelled)) else None
-  | GDefault => Some (set_proc n i (k RDefault))
+  | GDefault => if skip_default l then None else Some (set_proc n i (k RDefault))
   end.
 
-Fixpoint try_alts (n : net) (i : nat) (alts : list (gd V * (resp V -> L))) : option net :=
+Fixpoint try_alts (n : net) (i : nat) (l : L) (alts : list (gd V * (resp V -> L))) : option net :=
   match alts with
   | [] => None
-  | (g, k) :: r => match try_alt n i g k with Some n' => Some n' | None => try_alts n i r end
+  | (g, k) :: r => match try_alt n i l g k with Some n' => Some n' | None => try_alts n i l r end
   end.
 
 Definition try_step (n : net) (i : nat) : option net :=
@@ -77,7 +78,7 @@ Definition try_step (n : net) (i : nat) : option net :=
   | None => None
   | Some l =>
       match beh l with
-      | PSel alts => try_alts n i alts
+      | PSel alts => try_alts n i l alts
       | PClose c k =>
           match chans n !! c with
           | Some ch => if cclosed ch then Some (Net (procs n) (chans n) (cancelled n) (log n) true)
@@ -139,7 +140,7 @@ Qed.
 
 Lemma try_alt_sound n i l alts g k n' :
   procs n !! i = Some l -> beh l = PSel alts -> (g, k) ∈ alts ->
-  try_alt n i g k = Some n' -> nstep beh n n'.
+  try_alt n i l g k = Some n' -> nstep beh n n'.
 Proof.
   intros Hi Hb Ha. destruct g as [c|c v| |]; simpl.
   - destruct (chans n !! c) as [ch|] eqn:Hc; [|done].
@@ -156,15 +157,15 @@ Proof.
         intros [= <-]. destruct (find_partner_sound _ _ _ _ _ _ _ Hf) as (Hne & lj & altsj & Hj & _ & Hbj & Haj).
         rewrite Nat.sub_0_r in Hj. eapply NRendezvous; eauto.
   - destruct (cancelled n) eqn:Hcan; [|done]. intros [= <-]. eapply NDone; eauto.
-  - intros [= <-]. eapply NDefault; eauto.
+  - destruct (skip_default l); [done|]. intros [= <-]. eapply NDefault; eauto.
 Qed.
 
 Lemma try_alts_sound n i l alts0 alts n' :
   procs n !! i = Some l -> beh l = PSel alts0 -> (forall x, x ∈ alts -> x ∈ alts0) ->
-  try_alts n i alts = Some n' -> nstep beh n n'.
+  try_alts n i l alts = Some n' -> nstep beh n n'.
 Proof.
   intros Hi Hb. induction alts as [|[g k] r IH]; simpl; intros Hsub; [done|].
-  destruct (try_alt n i g k) as [n1|] eqn:Ht.
+  destruct (try_alt n i l g k) as [n1|] eqn:Ht.
   - intros [= <-]. eapply try_alt_sound; eauto. apply Hsub. left.
   - apply IH. intros x Hx. apply Hsub. right. assumption.
 Qed.
